@@ -348,7 +348,7 @@ def units(t, param_dims=None, summaries=None):
             if name == "pow" and len(args) == 2 and args[1][0] == "num":
                 d = u(args[0])
                 return d if d in (None, ANY) else d * args[1][1]
-            if name in ("Ixyz",):           # homogeneous of degree -1 in its (squared-mass) arguments
+            if name in ("Ixyz", "Phi_over_lambda_2"):   # homogeneous of degree -1 in its (squared-mass) arguments
                 d = u(args[0])
                 for a in args[1:]:
                     d = unify(d, u(a), t)
